@@ -50,17 +50,20 @@ type HostLine struct {
 	Witness   string   `json:"witness"`   // a request over an unrelated connection after the injection
 	Local     string   `json:"local"`     // a request between two local processes after the injection
 	ConnUp    bool     `json:"connup"`    // the offending connection is still up
+	After     string   `json:"after"`     // an honest message over the attacked connection afterwards: delivered | lost | refused
+	Complete  bool     `json:"complete"`  // the length field of the injected frame equals the number of bytes injected
 	Delivered int      `json:"delivered"` // messages a local process received because of the injected bytes
 	IType     int      `json:"itype"`     // type byte of the injected frame
 	AllocKB   int      `json:"allockb"`
 	Ms        int      `json:"ms"`
 	// edf
-	E       EdfCase `json:"e"`
-	Len     int     `json:"len"`
-	Hash    string  `json:"hash"`    // of the bytes that were injected / decoded
-	Changed bool    `json:"changed"` // the bytes differ from the honest ones
-	Outcome string  `json:"outcome"` // value | error | panic | hang
-	Stable  bool    `json:"stable"`  // a decoded value re-encodes and decodes to an equal value
+	E        EdfCase `json:"e"`
+	Len      int     `json:"len"`
+	Hash     string  `json:"hash"`     // of the bytes that were injected / decoded
+	Changed  bool    `json:"changed"`  // the bytes differ from the honest ones
+	Outcome  string  `json:"outcome"`  // value | error | panic | hang
+	Stable   bool    `json:"stable"`   // a decoded value re-encodes and decodes to an equal value
+	ZeroElem bool    `json:"zeroelem"` // the decoded value has a slice / map whose elements are zero-size types (e.g. [][0]uint16)
 }
 
 type HostRunner struct {
@@ -269,6 +272,7 @@ func (r *HostRunner) RunLive(c *LiveCase) error {
 	links[0].InjectUp(m)
 	line.Injected = len(m)
 	line.Hash = sum(m)
+	line.Complete = len(m) >= 8 && int(binary.BigEndian.Uint32(m[2:6])) == len(m)
 	line.Changed = string(m) != string(orig)
 	if len(m) > 7 {
 		line.IType = int(m[7])
@@ -311,6 +315,35 @@ func (r *HostRunner) RunLive(c *LiveCase) error {
 		okc <- res
 	}()
 	line.Witness = <-okc
+	// the attacked connection itself: still usable (its receive queue is not stuck) or closed.  A lying length field may swallow the next
+	// honest frame and end with the link being closed and re-dialled: several probes, spread over more than a second
+	{
+		wb.mu.Lock()
+		b0 := wb.stray
+		wb.mu.Unlock()
+		line.After = "refused"
+		for k := 0; k < 4 && line.After != "delivered"; k++ {
+			var serr error
+			if run(p.A, user, 3*time.Second, func(pr gen.Process) { serr = pr.Send(victim, "after") }) != nil {
+				serr = errors.New("hang")
+			}
+			if serr != nil {
+				time.Sleep(50 * time.Millisecond)
+				continue
+			}
+			line.After = "lost"
+			for i := 0; i < 70; i++ {
+				wb.mu.Lock()
+				got := wb.stray - b0
+				wb.mu.Unlock()
+				if got > 0 {
+					line.After = "delivered"
+					break
+				}
+				time.Sleep(5 * time.Millisecond)
+			}
+		}
+	}
 	_, e := p.B.ProcessInfo(victim)
 	line.NodeOK = e == nil
 	_, e = p.B.Network().Node(p.A.Name())
@@ -445,6 +478,7 @@ func (r *HostRunner) RunEdf(c *EdfCase) error {
 			line.Outcome = "error"
 		default:
 			line.Outcome = "value"
+			line.ZeroElem = hasZeroSizeElems(reflect.TypeOf(got.v), 0)
 			// a value that decodes re-encodes to bytes that decode to the same value
 			line.Stable = func() (ok bool) {
 				defer func() {
@@ -486,4 +520,26 @@ func LoadHostScript(path string) (*HostScript, error) {
 		return nil, err
 	}
 	return &s, nil
+}
+
+func hasZeroSizeElems(t reflect.Type, depth int) bool {
+	if t == nil || depth > 8 {
+		return false
+	}
+	switch t.Kind() {
+	case reflect.Slice, reflect.Map:
+		if t.Elem().Size() == 0 {
+			return true
+		}
+		return hasZeroSizeElems(t.Elem(), depth+1)
+	case reflect.Array, reflect.Pointer:
+		return hasZeroSizeElems(t.Elem(), depth+1)
+	case reflect.Struct:
+		for i := 0; i < t.NumField(); i++ {
+			if hasZeroSizeElems(t.Field(i).Type, depth+1) {
+				return true
+			}
+		}
+	}
+	return false
 }
